@@ -46,6 +46,7 @@ def _pipeline(case):
     nq, nr, nz = case['nq'], 7, 3
     grid = case['grid']
     adiab, chi = case['adiabatic'], case['chi']
+    Bf = 1.0 if (adiab and chi == 0 and case.get('path') == 'cu') else 1.3          # equilibrium field strength: 1 (the default) only for one family
     tag = 'ntheta=%d adiabatic=%s chi=%r path=%s grid=%r' % (nq, adiab, chi, case['path'], grid)
     brs = ops.mkspace(nr, c.rMin, c.rMax, 3, False, case['path'] == 'cu')
     eta = [np.asarray(brs.greville, dtype=float), np.linspace(0, 2 * math.pi, nq, endpoint=False), np.linspace(0, 10, nz, endpoint=False)]
@@ -70,7 +71,7 @@ def _pipeline(case):
         rho = Grid(eta, [None] * 3, h, 'v_parallel_2d', comm, dtype=np.complex128)
         phi = Grid(eta, [None] * 3, sw, 'v_parallel_2d', comm, dtype=np.complex128)
         kw = {'chi': chi} if adiab else {}
-        qn = QuasiNeutralitySolver(eta, 7, brs, c, adiabaticElectrons=adiab, **kw)
+        qn = QuasiNeutralitySolver(eta, 7, brs, c, adiabaticElectrons=adiab, B=Bf, **kw)
         l = rho.getLayout('v_parallel_2d')
         sl = tuple(slice(int(a), int(b)) for a, b in zip(l.starts, l.ends))
         out = []
@@ -115,9 +116,9 @@ def _pipeline(case):
             Bv, Bd = S.row(x, 0), S.row(x, 1)
             Kd += ww * (np.outer(Bd * x + Bv, Bd) - (1 / x + g_(x)) * x * np.outer(Bv, Bd))
             if adiab:
-                KC += ww * (1 / Te(x)) * x * np.outer(Bv, Bv)
+                KC += ww * (Bf * Bf / Te(x)) * x * np.outer(Bv, Bv)
             KD += ww * (-1 / x ** 2) * x * np.outer(Bv, Bv)
-            M += ww * (1 / n0(x)) * x * np.outer(Bv, Bv)
+            M += ww * (Bf * Bf / n0(x)) * x * np.outer(Bv, Bv)
     rows = np.array([S.row(x, 0) for x in eta[0]])
     mv = np.fft.fftfreq(nq, 1 / nq)
     evals = 0
